@@ -188,8 +188,31 @@ def build_string(fn, var, before=None):
                 pieces = [Piece("lit", iv.strval(), node=iv)] if iv.strval() else []
     tu = fn.tu
     prims = ("strcpy", "strcat", "snprintf", "sprintf", "strncpy", "strncat")
+    # statements jumped over by a top-level `if (<constant true>) goto L;` (an inlined helper's early return whose condition
+    # became constant, e.g. `if (NULL == NULL)`): the calls between the `if` and the label L are not executed
+    skipped = []
+    tops = body.children
+    for i, st_ in enumerate(tops):
+        if st_.kind != "IfStmt" or len(st_.children) != 2:
+            continue
+        cnd = st_.children[0].strip()
+        val = None
+        if cnd.kind == "BinaryOperator" and cnd.opcode in ("==", "!="):
+            a_, b_ = cnd.children[0].intval(), cnd.children[1].intval()
+            if a_ is not None and b_ is not None:
+                val = (a_ == b_) if cnd.opcode == "==" else (a_ != b_)
+        thn = st_.children[1]
+        gt = thn if thn.kind == "GotoStmt" else (thn.children[0] if thn.kind == "CompoundStmt" and len(thn.children) == 1 and thn.children[0].kind == "GotoStmt" else None)
+        if val and gt is not None:
+            lname = gt.nsrc.replace("goto", "").strip(" ;")
+            for later in tops[i + 1:]:
+                if later.kind == "LabelStmt" and (getattr(later, "name", None) == lname or later.nsrc.startswith(lname + ":")):
+                    skipped.append((st_.end, later.begin))
+                    break
     for c in fn.calls():
         if before is not None and c.begin >= before.begin:
+            continue
+        if any(lo <= c.begin < hi for lo, hi in skipped):
             continue
         if c.callee not in prims:
             # a library helper that builds (part of) the buffer passed to it: inline its straight-line building
@@ -199,7 +222,25 @@ def build_string(fn, var, before=None):
                 idx = [i for i, a in enumerate(c.args) if a.path() == var][0]
                 if idx >= len(ps) or ps[idx].type.replace("const ", "").strip() != "char *" or "const" in ps[idx].type:
                     continue
-                sub, sub_seen = build_string(callee, ps[idx].name)
+                # an early `if (p == NULL) return;` on a parameter that is NULL at this call ends the building there
+                cut = None
+                null_ps = {ps[i].name for i in range(min(len(ps), len(c.args))) if c.args[i].intval() == 0
+                           and "*" in (ps[i].type or "")}
+                cbody = [x for x in callee.children if x.kind == "CompoundStmt"]
+                for st_ in (cbody[0].children if cbody else []):
+                    if st_.kind == "IfStmt" and len(st_.children) >= 2:
+                        cnd = st_.children[0].strip()
+                        tested = None
+                        if cnd.kind == "BinaryOperator" and cnd.opcode == "==" and cnd.children[1].intval() == 0:
+                            tested = cnd.children[0].path()
+                        elif cnd.kind == "UnaryOperator" and cnd.opcode == "!":
+                            tested = cnd.children[0].path()
+                        thn = st_.children[1]
+                        returns = thn.kind == "ReturnStmt" or (thn.kind == "CompoundStmt" and len(thn.children) == 1 and thn.children[0].kind == "ReturnStmt")
+                        if tested in null_ps and returns and len(st_.children) == 2:
+                            cut = st_
+                            break
+                sub, sub_seen = build_string(callee, ps[idx].name, before=cut)
                 if not sub_seen:
                     continue        # the callee only reads the buffer
                 if c.parent is not body:
@@ -353,22 +394,85 @@ def _join_val(a, b):
     return TOP
 
 
-def handle_states(fn, fields, obj=OBJ):
+_HS_MEMO = {}
+
+
+def handle_states(fn, fields, obj=OBJ, init=None, alias=None, depth=0):
     """Forward typestate over the CFG of fn for the given handle fields of `obj`.
 
     Values: ZERO (no handle), NONZERO (open handle), CLOSED (its H5?close was called, field not yet
     zeroed), INVALID (a failed create: `f < 0` was true), ANY.  Returns (cfg, IN, events) where events
-    lists ('zeroed-without-close', node, field, state) computed at the fixpoint."""
+    lists ('zeroed-without-close', node, field, state) computed at the fixpoint.
+
+    Calls of other functions of the translation unit that can touch the handles are followed (context-sensitive: the callee is
+    analysed from the caller's current state, depth <= 3): a handle passed by address (`helper(obj, &obj->dataset)`) is known in
+    the callee as `*<parameter>`; the caller continues from the join of the callee's states at its returns."""
     g = _cfg.build_c(fn)
     fields = tuple(fields)
+    alias = dict(alias or {})
+    tu = fn.tu
 
     def field_of(e):
         p = e.path() if e is not None else None
+        if p in alias:
+            return alias[p]
         if p and p.startswith(obj + "->"):
             f = p[len(obj) + 2:]
             if f in fields:
                 return f
         return None
+
+    def touches(callee, seen=()):
+        """can `callee` (transitively) close or store one of the handle fields?"""
+        key = ("touch", callee.name)
+        if key in _HS_MEMO:
+            return _HS_MEMO[key]
+        res = False
+        for n in callee.walk():
+            if n.kind == "CallExpr" and n.callee in CLOSERS:
+                res = True
+            elif n.kind == "BinaryOperator" and n.opcode == "=":
+                p = n.children[0].path() or ""
+                if p.startswith("*") or any(p == obj + "->" + f for f in fields):
+                    res = True
+            elif n.kind == "CallExpr" and n.callee in tu.functions and n.callee not in seen and n.callee != callee.name:
+                if touches(tu.functions[n.callee], seen + (callee.name,)):
+                    res = True
+        _HS_MEMO[key] = res
+        return res
+
+    def call_effect(n, st, events):
+        callee = tu.functions.get(n.callee)
+        if callee is None or depth >= 3 or callee.name == fn.name or not touches(callee):
+            return st
+        ps = [p.name for p in callee.children if p.kind == "ParmVarDecl"]
+        al = {}
+        for pn, a in zip(ps, n.args):
+            t = a.strip(casts=True)
+            if t.kind == "UnaryOperator" and t.opcode == "&":
+                f = field_of(t.children[0])
+                if f:
+                    al["*" + pn] = f
+        g2, IN2, ev2, tr2 = handle_states(callee, fields, obj, init=st, alias=al, depth=depth + 1)
+        outs = []
+        for x in g2.nodes:
+            if x.kind == "return" and x.id in IN2:
+                outs.append(tr2(x, IN2[x.id]))
+        if g2.exit.id in IN2 and not outs:
+            outs.append(IN2[g2.exit.id])
+        elif g2.exit.id in IN2:
+            # falling off the end of a void function
+            preds_fall = [a_ for a_ in g2.nodes if any(b == g2.exit.id for b, _l in g2.succ[a_.id]) and a_.kind != "return" and a_.id in IN2]
+            for a_ in preds_fall:
+                outs.append(tr2(a_, IN2[a_.id]))
+        if events is not None:
+            events.extend(ev2)
+        if not outs:
+            return st
+        out = outs[0]
+        for o in outs[1:]:
+            out = {k: _join_val(out.get(k, TOP), o.get(k, TOP)) for k in set(out) | set(o)}
+        return out
 
     def transfer(node, st, events=None):
         if node.kind not in ("stmt", "return", "cond") or node.ast is None:
@@ -378,6 +482,8 @@ def handle_states(fn, fields, obj=OBJ):
         for n in node.ast.walk():
             if n.kind == "CallExpr" and n.callee in CLOSERS:
                 items.append((n.begin, "close", n))
+            elif n.kind == "CallExpr" and n.callee in tu.functions:
+                items.append((n.end, "call", n))
             elif n.kind == "BinaryOperator" and n.opcode == "=":
                 items.append((n.end, "assign", n))
         for _, what, n in sorted(items, key=lambda x: x[0]):
@@ -385,6 +491,8 @@ def handle_states(fn, fields, obj=OBJ):
                 f = field_of(n.args[0]) if n.args else None
                 if f:
                     st[f] = CLOSED
+            elif what == "call":
+                st = dict(call_effect(n, st, events))
             else:
                 f = field_of(n.children[0])
                 if f:
@@ -437,7 +545,7 @@ def handle_states(fn, fields, obj=OBJ):
             out[k] = _join_val(a.get(k, TOP), b.get(k, TOP))
         return out
 
-    init = {f: TOP for f in fields}
+    init = dict(init) if init is not None else {f: TOP for f in fields}
     IN = g.solve(init, transfer, join, edge)
     events = []
     for nid, st in IN.items():
